@@ -405,6 +405,11 @@ K_READ_IO = dict(name="K-core::ctl_io", package="rustzx-core", features="full",
                      "configuration and device state; the clock dimension of the floating bus is the Verus contract of floating_bus_value"],
                  timeout=3000)
 
+K_AYREGS = dict(name="K-core::ay-restore", package="rustzx-core", features="full", harnesses=["ay_set_regs_selection"],
+                functions={"ay_set_regs_selection": ["ZXAyChip::set_regs", "ZXAyChip::select_reg", "ZXAyChip::write"]},
+                assumptions=CORE_ASSUME + ["libm::sqrt stubbed while constructing the controller; the real aym::AymPrecise::write_register runs"],
+                timeout=3000)
+
 K_TRAP = dict(name="K-core::trap", package="rustzx-core", features="full", harnesses=["pc_callback_trap"],
               functions={"pc_callback_trap": ["ZXController::pc_callback"]}, assumptions=CORE_ASSUME)
 K_BREAK = dict(name="K-core::breakpoint", package="rustzx-core", features="full", harnesses=["pc_callback_breakpoint"],
@@ -543,7 +548,7 @@ PROPS = {
         claim="Kani/CBMC on the real loaders: for every 27-byte SNA header, every prior CPU state and both machines the registers, IFF, interrupt mode, border are exactly the format's decode (Err for mode 3), independent of halted/EI-shadow/prefix state of the receiver, and a snapshot of the other model is rejected; SNA RAM banks and the 128K latch incl. lock through the round-trip harnesses of C13; SZX Z80R decode incl. halted / EI-pending flags (bounded one-block files) and model mismatch rejection; Verus: restore_7ffd sets the latch regardless of a previous lock, ZXAyChip::set_regs restores the register file and programs the generator, every behind-the-bus RAM writer refreshes the display shadow (scan) and refresh covers every display bank (Kani); the real scr::load (Verus, unit scr): a 6912-byte file from a non-failing asset loads, its bytes become the start of the RAM bank mapped at 0x4000 with the rest of that bank and every other bank untouched, the display shadow is rebuilt afterwards, any other size is rejected with the machine unchanged; the real SZX block handlers (Verus, unit szx) for EVERY block content of at least the size szx::load checks: Z80R decodes every register, IFF1/IFF2, IM (3 rejected with the machine untouched), halted (PC behind the HALT), EI-pending, Q, MEMPTR and the frame clock modulo the frame length; SPCR restores the latch (0 on 48K ids), replays port 0xFE and lets the border field win; AY00 selects and restores the register file (and the AY presence on 48K ids); KEYB/AMXM set Kempston joystick/mouse presence; RAMP (stored) puts exactly the 16384 bytes after the prefix into the addressed bank, rejects missing pages and short payloads and touches no other bank.",
         note="SZX chunk loop BOUNDED (one-block files, enumerated sizes; thorough tier only: ~10 min per harness; zlib pages rely on the unverified miniz_oxide). 'Two encodings of the same state behave identically' follows by transitivity through the decode obligations, not mechanised. SCR on a 128K whose shadow screen (bank 7) is displayed goes to bank 5 as implemented (the statement does not say which). SZX halted-PC convention left as implemented (format ambiguity). Defects repaired: model mismatch (SNA, SZX), locked receiver, AY generator not restored, receiver CPU state.",
         verus=["ctl", "scr", "szx"],
-        kani=[K_LOADERS_C14, K_LOADERS_SZX, K_REFRESH],
+        kani=[K_LOADERS_C14, K_LOADERS_SZX, K_REFRESH, K_AYREGS],
         scans=[scan_ram_writers_refresh, scan_szx_min_sizes],
         explanation="loader decode obligations against the format descriptions",
         technique="contract-based deductive verification: Kani/CBMC harnesses on the real loaders + Verus contracts",
